@@ -27,6 +27,9 @@ static Outcome runCase(const KV& c)
     ProblemSpec p     = ProblemSpec::get(c);
     const int depth   = (int)c.getI("depth");
     const int threads = (int)c.getI("threads");
+    const bool shortTeam = c.getI("short_team", 0) != 0 && threads > 1;
+    if (shortTeam)
+        o.cls("called_with_a_team_smaller_than_requested");
     const bool probe  = c.getI("probe", 0) != 0;
     const int ukind = (int)c.getI("u_kind"), fkind = (int)c.getI("f_kind");
     const uint64_t useed = c.getU("u_seed"), fseed = c.getU("f_seed");
@@ -98,7 +101,17 @@ static Outcome runCase(const KV& c)
                     o.cnt("excluded_known_F15");
                 }
                 ResidualGive op(lev.grid(), lev.levelCache(), *H[hk].geometry, *H[hk].coefficients, p.dirbc, thr);
-                op.computeResidual(res, f, u);
+                if (shortTeam) {
+                    // OpenMP never promises the requested team size: called from inside an enclosing parallel region (nested
+                    // parallelism off, the default) the operator's own regions run with a team of one
+#pragma omp parallel num_threads(2)
+                    {
+#pragma omp single
+                        op.computeResidual(res, f, u);
+                    }
+                }
+                else
+                    op.computeResidual(res, f, u);
                 // the regression case of a (timing dependent) race repeats the evaluation and keeps a deviating result
                 for (int rep = 0; rep < (int)c.getI("repeat", 0); rep++) {
                     Vector<double> res2(n);
@@ -118,7 +131,15 @@ static Outcome runCase(const KV& c)
             }
             else {
                 ResidualTake op(lev.grid(), lev.levelCache(), *H[hk].geometry, *H[hk].coefficients, p.dirbc, threads);
-                op.computeResidual(res, f, u);
+                if (shortTeam) {
+#pragma omp parallel num_threads(2)
+                    {
+#pragma omp single
+                        op.computeResidual(res, f, u);
+                    }
+                }
+                else
+                    op.computeResidual(res, f, u);
             }
             for (int i = 0; i < g.nr(); i++)
                 for (int j = 0; j < g.ntheta(); j++) {
@@ -244,6 +265,7 @@ static KV genCase()
     p.put(c);
     c.putI("depth", depth);
     c.putI("threads", rpick({1, 1, 2, 3, 5, 16}));
+    c.putI("short_team", rweighted({4, 1}));
     c.putI("u_kind", rweighted({4, 3, 1, 1, 1, 1}));
     c.putU("u_seed", rseed());
     c.putI("vec_scale_exp", rpick({0, 0, 0, 0, 0, 0, -300, -100, 100, 300}));
